@@ -59,11 +59,11 @@ func refQRAlign(v int) []int {
 func refQRTotalCodewords(v int) int {
 	size := 17 + 4*v
 	mods := size * size
-	mods -= 3 * 64         // finder patterns with separators
+	mods -= 3 * 64          // finder patterns with separators
 	mods -= 2 * (size - 16) // timing patterns between the separators
 	if v >= 2 {
 		n := v/7 + 2
-		mods -= 25 * (n*n - 3) // alignment patterns (not at the three finder corners)
+		mods -= 25 * (n*n - 3)  // alignment patterns (not at the three finder corners)
 		mods += 5 * 2 * (n - 2) // those sitting on a timing line share 5 modules with it
 	}
 	mods -= 31 // two copies of the 15 format bits + the dark module
